@@ -179,14 +179,14 @@ var interestingLens = []int{1, 2, 3, 4, 5, 9, 10, 19, 20, 21, 22, 23, 24, 25, 25
 
 // Opts shapes the device model for one property.
 type Opts struct {
-	MaxSegs      int
-	LongOneIn    int  // 1 in n frames has a long payload (up to 1023)
-	Garbage      bool // stray 0xD3 garbage allowed
-	Tail         bool // optional truncated last frame
-	MinFrames    int
+	MaxSegs       int
+	LongOneIn     int  // 1 in n frames has a long payload (up to 1023)
+	Garbage       bool // stray 0xD3 garbage allowed
+	Tail          bool // optional truncated last frame
+	MinFrames     int
 	OnlyDecodable bool // message types drawn from the decodable set only
-	MaxPayload   int  // cap (0 = 1023)
-	NoSiblings   bool // never follow a frame by a nearly identical one
+	MaxPayload    int  // cap (0 = 1023)
+	NoSiblings    bool // never follow a frame by a nearly identical one
 }
 
 // GenPayload draws a payload for a frame of the given type.
